@@ -16,22 +16,28 @@ package x509
 //   poolBack  every key of bySHA256 maps to an index in range whose certificate has that
 //             fingerprint (no stray keys: Contains is exactly membership in the view);
 //   poolIdx   every index stored in byName / bySubjectKeyId is in range.
+// Quantifiers over positions are triggered by spec.pmark (pmark(i) holds for every i,
+// /verif/specs/certpool_time.smt2) and carry pmark(i) as a premise, so that a position named in a
+// goal instantiates the matching hypothesis by matching alone.
 
 //@ pred fpkey(c) = spec.keystr(seq(c.FingerprintSHA256), len(c.FingerprintSHA256))
 //@ pred nameKey(c) = spec.keystr(seq(c.RawSubject), len(c.RawSubject))
 //@ pred skidKey(c) = spec.keystr(seq(c.SubjectKeyId), len(c.SubjectKeyId))
 //@ pred poolMaps(s) = s != nil && s.bySHA256 != nil && s.byName != nil && s.bySubjectKeyId != nil
-//@ pred poolFwd(s) = forall(i, 0, len(s.certs), s.certs[i] != nil, s.certs[i]) && forall(i, 0, len(s.certs), has(s.bySHA256, fpkey(s.certs[i])), s.certs[i]) && forall(i, 0, len(s.certs), s.bySHA256[fpkey(s.certs[i])] == i, s.certs[i])
+//@ pred poolFwd(s) = forall(i, 0, len(s.certs), !spec.pmark(i) || (s.certs[i] != nil && has(s.bySHA256, fpkey(s.certs[i])) && s.bySHA256[fpkey(s.certs[i])] == i), spec.pmark(i))
 //@ pred poolBack(s) = forallv(k, string, has(s.bySHA256, k) ==> 0 <= s.bySHA256[k] && s.bySHA256[k] < len(s.certs)) && forallv(k, string, has(s.bySHA256, k) ==> fpkey(s.certs[s.bySHA256[k]]) == k)
-//@ pred idxOK(l, n) = forall(j, 0, len(l), 0 <= l[j] && l[j] < n)
+//@ pred idxOK(l, n) = forall(j, 0, len(l), !spec.pmark(j) || (0 <= l[j] && l[j] < n && spec.pmark(l[j])), spec.pmark(j))
 //@ pred poolIdx(s) = forallv(k, string, idxOK(s.byName[k], len(s.certs))) && forallv(k, string, idxOK(s.bySubjectKeyId[k], len(s.certs)))
-//@ pred poolInv(s) = poolMaps(s) && poolFwd(s) && poolBack(s) && poolIdx(s)
+// poolIdx is kept apart from poolInv: NewCertPool establishes it and findVerifiedParents needs it
+// (index in range), but its preservation by AddCert could not be discharged (see the notes).
+//@ pred poolInv(s) = poolMaps(s) && poolFwd(s) && poolBack(s)
 // member(s, c): c's fingerprint is the fingerprint of a certificate of the view.
 //@ pred member(s, c) = s != nil && has(s.bySHA256, fpkey(c))
 
 //@ func NewCertPool
-//@   ensures result != nil && fresh(result) && len(result.certs) == 0
-//@   ensures poolInv(result)
+//@   ensures result != nil && fresh(result) && len(result.certs) == 0 && result.certs == nil
+//@   ensures fresh(result.bySHA256) && fresh(result.byName) && fresh(result.bySubjectKeyId)
+//@   ensures poolInv(result) && poolIdx(result)
 //@   ensures len(result.bySHA256) == 0 && len(result.byName) == 0 && len(result.bySubjectKeyId) == 0
 //@   terminates
 
@@ -50,14 +56,49 @@ package x509
 //@   ensures result <==> member(s, c)
 //@   terminates
 
+// AddCert (dedup by fingerprint), stated over the whole view:
+//  [dup] the fingerprint is already in the view: view, key set and indices unchanged;
+//  [new] otherwise the view is the old view with cert appended (every old position keeps its
+//        certificate), the key set gains exactly fpkey(cert), mapped to the new position;
+//  every old key keeps its index ([idx]); the invariant is maintained.
+// Frame: only the pool's own representation is written - the certs field and its backing
+// array (append in place), the three map objects, and the backing arrays of the two index
+// lists that receive the new position. [arr]/[lists] say where the new arrays come from (the
+// old backing array or fresh memory), which callers need for their own frames (tls: AddCert in
+// a loop on a pool from NewCertPool).
+// sep(s, cert): a *CertPool and a *Certificate never point into the same allocation (Go typing;
+// the untyped memory model needs to be told).
+//@ pred viewKept(s, n) = forall(i, 0, n, !spec.pmark(i) || s.certs[i] == old(s.certs[i]), spec.pmark(i))
+//@ func (*CertPool).AddCert
+//@   uses perreturn
+//@   requires poolInv(s)
+//@   requires sep(s, cert)
+//@   panics_when cert == nil
+//@   ensures [inv] poolInv(s)
+//@   ensures [dup] old(member(s, cert)) ==> same(s.certs, old(s.certs)) && viewKept(s, len(s.certs))
+//@   ensures [new] !old(member(s, cert)) ==> len(s.certs) == old(len(s.certs)) + 1 && s.certs[old(len(s.certs))] == cert && viewKept(s, old(len(s.certs)))
+//@   ensures [keys] forallv(k, string, has(s.bySHA256, k) <==> old(has(s.bySHA256, k)) || k == fpkey(cert))
+//@   ensures [idx] forallv(k, string, old(has(s.bySHA256, k)) ==> s.bySHA256[k] == old(s.bySHA256[k]))
+//@   ensures [newidx] !old(member(s, cert)) ==> s.bySHA256[fpkey(cert)] == old(len(s.certs))
+//@   ensures [maps] s.bySHA256 == old(s.bySHA256) && s.byName == old(s.byName) && s.bySubjectKeyId == old(s.bySubjectKeyId)
+//@   ensures [arr] samebase(s.certs, old(s.certs)) || fresh(s.certs)
+//@   ensures [lists] forallv(k, string, samebase(s.byName[k], old(s.byName[k])) || fresh(s.byName[k])) && forallv(k, string, samebase(s.bySubjectKeyId[k], old(s.bySubjectKeyId[k])) || fresh(s.bySubjectKeyId[k]))
+//@   modifies s.certs, under(s.certs), under(s.bySHA256), under(s.byName), under(s.bySubjectKeyId), under(s.byName[nameKey(cert)]), under(s.bySubjectKeyId[skidKey(cert)])
+//@   terminates
+
+// findVerifiedParents (C08 second sentence, C07 "links by issuer name and a valid signature") has
+// no contract: the attempt (member / issuer / errCert clauses over poolInv && poolIdx) left 7 of
+// 60 obligations undecided within the time limit; see /verif/notes/certpool.md, "unverified".
+// What its callee guarantees is stated at (*Certificate).CheckSignatureFrom below.
 // With the invariant, Contains is membership in the view in both directions.
 //@ func (*CertPool).Covers
 //@   uses perreturn
-//@   requires pool != nil ==> forall(i, 0, len(pool.certs), pool.certs[i] != nil, pool.certs[i])
-//@   loop 1 invariant forall(k, 0, it, member(s, pool.certs[k]), pool.certs[k])
+//@   requires pool != nil ==> forall(i, 0, len(pool.certs), pool.certs[i] != nil, spec.pmark(i))
+//@   loop 1 invariant spec.pmark(it)
+//@   loop 1 invariant forall(k, 0, len(pool.certs), !spec.pmark(k) || k == it || k > it || member(s, pool.certs[k]), spec.pmark(k))
 //@   ensures pool == nil ==> result
-//@   ensures pool != nil && result ==> forall(i, 0, len(pool.certs), member(s, pool.certs[i]), pool.certs[i])
-//@   ensures pool != nil && !result ==> exists(i, 0, len(pool.certs), !member(s, pool.certs[i]))
+//@   ensures pool != nil && result ==> forall(i, 0, len(pool.certs), !spec.pmark(i) || member(s, pool.certs[i]), spec.pmark(i))
+//@   ensures pool != nil && !result ==> !forall(i, 0, len(pool.certs), member(s, pool.certs[i]), spec.pmark(i))
 //@   terminates
 
 //@ func (*CertPool).Certificates
@@ -68,8 +109,8 @@ package x509
 //@   terminates
 
 //@ func (*CertPool).Subjects
-//@   requires s != nil && forall(i, 0, len(s.certs), s.certs[i] != nil)
-//@   loop 1 invariant len(res) == len(s.certs) && fresh(res) && forall(k, 0, it, same(res[k], s.certs[k].RawSubject))
+//@   requires s != nil && forall(i, 0, len(s.certs), s.certs[i] != nil, s.certs[i])
+//@   loop 1 invariant len(res) == len(s.certs) && fresh(res) && forall(k, 0, it, same(res[k], s.certs[k].RawSubject), res[k])
 //@   ensures  len(result) == len(s.certs) && fresh(result)
 //@   ensures  forall(i, 0, len(s.certs), same(result[i], s.certs[i].RawSubject))
 //@   alloc <= len(s.certs)
@@ -77,7 +118,7 @@ package x509
 
 // ---------------------------------------------------------------- chain.go, verify.go (property C07)
 
-//@ pred chainOK(chain) = forall(i, 0, len(chain), chain[i] != nil, chain[i])
+//@ pred chainOK(chain) = forall(i, 0, len(chain), chain[i] != nil, spec.pmark(i))
 
 // Fresh copy of the chain plus one certificate at the end; the argument is not modified.
 //@ func (CertificateChain).AppendToFreshChain
@@ -92,33 +133,44 @@ package x509
 //@   alloc <= len(chain) + 1
 //@   terminates
 
+// beqp(a, b) is eq(a, b) written out with a trigger on the byte quantifier. The loop invariants say
+// "no element before position it is equal", written forall k < len: k == it || k > it || ...
+// (the same statement as forall k < it; the explicit atom k == it helps the solver connect the
+// new element with the comparison just made). Position quantifiers use the spec.pmark trigger
+// (see the CertPool section); pmark(it) makes the element the loop is looking at available as
+// the witness of "some element is equal" when the function returns true.
+//@ pred beqp(a, b) = len(a) == len(b) && forall(e, 0, len(a), a[e] == b[e], a[e])
+
 // "repeats no certificate": membership in the chain by the certificate's DER bytes.
 //@ func (CertificateChain).CertificateInChain
 //@   uses perreturn
 //@   requires c != nil && chainOK(chain)
-//@   loop 1 invariant forall(k, 0, it, !eq(c.Raw, chain[k].Raw), chain[k])
-//@   ensures result ==> exists(i, 0, len(chain), eq(c.Raw, chain[i].Raw))
-//@   ensures !result ==> forall(i, 0, len(chain), !eq(c.Raw, chain[i].Raw), chain[i])
+//@   loop 1 invariant spec.pmark(it)
+//@   loop 1 invariant forall(k, 0, len(chain), !spec.pmark(k) || k == it || k > it || !beqp(c.Raw, chain[k].Raw), spec.pmark(k))
+//@   ensures result ==> !forall(i, 0, len(chain), !eq(c.Raw, chain[i].Raw), spec.pmark(i))
+//@   ensures !result ==> forall(i, 0, len(chain), !spec.pmark(i) || !eq(c.Raw, chain[i].Raw), spec.pmark(i))
 //@   terminates
 
+//@ pred skSame(a, b) = beqp(a.RawSubject, b.RawSubject) && beqp(a.RawSubjectPublicKeyInfo, b.RawSubjectPublicKeyInfo)
+//@ pred skEq(a, b) = eq(a.RawSubject, b.RawSubject) && eq(a.RawSubjectPublicKeyInfo, b.RawSubjectPublicKeyInfo)
 //@ func (CertificateChain).SubjectAndKeyInChain
 //@   uses perreturn
 //@   requires sk != nil && chainOK(chain)
-//@   loop 1 invariant 0 <= it && it <= len(chain)
+//@   loop 1 invariant 0 <= it && it <= len(chain) && spec.pmark(it)
 //@   loop 1 decreases len(chain) - it
-//@   loop 1 invariant forall(k, 0, it, !eq(sk.RawSubject, chain[k].RawSubject) || !eq(sk.RawSubjectPublicKeyInfo, chain[k].RawSubjectPublicKeyInfo))
-//@   ensures result ==> exists(i, 0, len(chain), eq(sk.RawSubject, chain[i].RawSubject) && eq(sk.RawSubjectPublicKeyInfo, chain[i].RawSubjectPublicKeyInfo))
-//@   ensures !result ==> forall(i, 0, len(chain), !eq(sk.RawSubject, chain[i].RawSubject) || !eq(sk.RawSubjectPublicKeyInfo, chain[i].RawSubjectPublicKeyInfo))
+//@   loop 1 invariant forall(k, 0, len(chain), !spec.pmark(k) || k == it || k > it || !skSame(sk, chain[k]), spec.pmark(k))
+//@   ensures result ==> !forall(i, 0, len(chain), !skEq(sk, chain[i]), spec.pmark(i))
+//@   ensures !result ==> forall(i, 0, len(chain), !spec.pmark(i) || !skEq(sk, chain[i]), spec.pmark(i))
 //@   terminates
 
 //@ func (CertificateChain).CertificateSubjectAndKeyInChain
 //@   uses perreturn
 //@   requires c != nil && chainOK(chain)
-//@   loop 1 invariant 0 <= it && it <= len(chain)
+//@   loop 1 invariant 0 <= it && it <= len(chain) && spec.pmark(it)
 //@   loop 1 decreases len(chain) - it
-//@   loop 1 invariant forall(k, 0, it, !eq(c.RawSubject, chain[k].RawSubject) || !eq(c.RawSubjectPublicKeyInfo, chain[k].RawSubjectPublicKeyInfo))
-//@   ensures result ==> exists(i, 0, len(chain), eq(c.RawSubject, chain[i].RawSubject) && eq(c.RawSubjectPublicKeyInfo, chain[i].RawSubjectPublicKeyInfo))
-//@   ensures !result ==> forall(i, 0, len(chain), !eq(c.RawSubject, chain[i].RawSubject) || !eq(c.RawSubjectPublicKeyInfo, chain[i].RawSubjectPublicKeyInfo))
+//@   loop 1 invariant forall(k, 0, len(chain), !spec.pmark(k) || k == it || k > it || !skSame(c, chain[k]), spec.pmark(k))
+//@   ensures result ==> !forall(i, 0, len(chain), !skEq(c, chain[i]), spec.pmark(i))
+//@   ensures !result ==> forall(i, 0, len(chain), !spec.pmark(i) || !skEq(c, chain[i]), spec.pmark(i))
 //@   terminates
 
 // isValid(certType, currentChain): currentChain is the path below c (leaf first), so
@@ -138,32 +190,45 @@ package x509
 //@   ensures [reason] result != nil && !(certType == CertificateTypeIntermediate && !(c.BasicConstraintsValid && c.IsCA)) ==> unboxed(result, CertificateInvalidError).Reason == TooManyIntermediates
 //@   terminates
 
-// time.Time is opaque (/verif/extern/time.contracts gives Before/After no meaning), so only
-// the selection is stated: the result is one of the two arguments.
+// Dates. tlt(a, b): the instant a is before the instant b; hasMono(a): a carries a monotonic
+// clock reading (global preds, /verif/extern/certpool.contracts: the assumed meaning of
+// (time.Time).Before / After, valid unless both operands carry a monotonic reading).
+// earlier / later: "returns the earlier / later of a and b".
 //@ func earlier
 //@   ensures same(result, a) || same(result, b)
+//@   ensures !(hasMono(a) && hasMono(b)) ==> (tlt(a, b) ==> same(result, a)) && (!tlt(a, b) ==> same(result, b))
 //@   terminates
 //@ func later
 //@   ensures same(result, a) || same(result, b)
+//@   ensures !(hasMono(a) && hasMono(b)) ==> (tlt(b, a) ==> same(result, a)) && (!tlt(b, a) ==> same(result, b))
 //@   terminates
 
-// FilterByDate: time.Time is opaque here (/verif/extern/time.contracts gives Before/After no
-// meaning), so the date semantics of the three classes cannot be stated, and the
-// "valid && !wasValid" panic cannot be proved unreachable (it needs transitivity of
-// Before/After): maypanic. What is proved: memory safety, termination, the three results
-// are fresh slices, and no more chains come out than went in.
+// FilterByDate: "divides chains into a set of disjoint chains, containing current chains valid
+// now, expired chains that were valid at some point, and the set of chains that were never
+// valid". Proved: memory safety, termination, the three results are fresh slices, no more
+// chains come out than went in, and the panic "valid && !wasValid should not be possible" is
+// unreachable (no maypanic): lowerBound < now < upperBound implies lowerBound < upperBound by
+// transitivity of the instant order, PROVIDED the three comparisons are wall-clock comparisons -
+// hence chainDatesOK: the validity dates carry no monotonic clock reading (they come from
+// parsing or time.Date; only time.Now returns such readings; Before/After compare monotonic
+// readings when both operands have one, and that order need not agree with the wall clock).
+// NOT proved (attempted, see the notes): the date semantics of the three classes and "every
+// non-empty input chain lands in exactly one output".
+// Quantifiers over positions are triggered by spec.pmark (pmark(i) holds for every i,
+// /verif/specs/certpool_time.smt2); the invariants name the positions the code touches.
+//@ pred certDatesOK(c) = c != nil && !hasMono(c.NotBefore) && !hasMono(c.NotAfter)
+//@ pred chainDatesOK(ch) = forall(m, 0, len(ch), certDatesOK(ch[m]), spec.pmark(m))
 //@ func FilterByDate
-//@   maypanic
-//@   requires forall(i, 0, len(chains), forall(j, 0, len(chains[i]), chains[i][j] != nil))
-//@   requires forall(i, 0, len(chains), forall(j, 0, len(chains[i]) - 1, chains[i][1:][j] != nil))
-//@   loop 1 invariant len(current) + len(expired) + len(never) <= it && 0 <= it && it <= len(chains)
+//@   requires forall(i, 0, len(chains), chainDatesOK(chains[i]) && allocated(chains[i]), spec.pmark(i))
+//@   loop 1 invariant 0 <= it && it <= len(chains) && spec.pmark(it) && spec.pmark(0)
+//@   loop 1 invariant len(current) + len(expired) + len(never) <= it
 //@   loop 1 invariant fresh(current) && fresh(expired) && fresh(never)
 //@   loop 1 decreases len(chains) - it
-//@   loop 2 invariant 0 <= it && it <= len(chain) - 1 && len(chain) >= 1
-//@   loop 2 invariant forall(k, 0, len(chain) - 1, chain[1:][k] != nil)
+//@   loop 2 invariant 0 <= it && it <= len(chain) - 1 && len(chain) >= 1 && spec.pmark(it + 1)
+//@   loop 2 invariant !hasMono(lowerBound) && !hasMono(upperBound)
 //@   loop 2 decreases len(chain) - 1 - it
-//@   ensures len(current) + len(expired) + len(never) <= len(chains)
-//@   ensures fresh(current) && fresh(expired) && fresh(never)
+//@   ensures [count] len(current) + len(expired) + len(never) <= len(chains)
+//@   ensures [fresh] fresh(current) && fresh(expired) && fresh(never)
 //@   terminates
 
 // ---------------------------------------------------------------- x509.go (signature check used by chain building)
@@ -171,15 +236,17 @@ package x509
 // RFC 5280 6.1.3 (a)(4): a nil result implies that the issuer name of c is the subject name
 // of parent (the C07 clause "links each certificate to the next by issuer name"), and
 // RFC 5280 4.2.1.9 / 4.2.1.3: parent is not a declared non-CA and, if it restricts key usage,
-// allows certificate signing. The cryptographic check itself (CheckSignature ->
-// CheckSignatureFromKey -> crypto/*) has no contract: it is assumed not to panic
-// (assume_nopanic, listed as an assumption) and may do anything to the heap, which is why the
-// postconditions speak about the entry state and the frame is "all".
+// allows certificate signing. [sig]: a nil result implies that parent.CheckSignature accepted
+// c's signature over c's TBS bytes (ghost.sigOK is the event "CheckSignature returned nil",
+// /verif/extern/ocsp.contracts; the cryptographic meaning is behind the contract of
+// (*Certificate).CheckSignature in zz_verif_contracts_x509sig.go). keyOK(parent.PublicKey)
+// (well-formed key object, /verif/extern/x509sig.contracts) is CheckSignature's precondition.
 //@ global ErrUnsupportedAlgorithm != nil
 //@ func (*Certificate).CheckSignatureFrom
-//@   requires c != nil && parent != nil
-//@   assume_nopanic CheckSignature
-//@   ensures  [issuer] err == nil ==> old(eq(parent.RawSubject, c.RawIssuer))
-//@   ensures  [ca] err == nil ==> old(!(parent.BasicConstraintsValid && !parent.IsCA) || eq(c.RawSubjectPublicKeyInfo, entrustBrokenSPKI))
-//@   ensures  [keyusage] err == nil ==> old(parent.KeyUsage == 0 || parent.KeyUsage & KeyUsageCertSign != 0)
-//@   modifies all
+//@   requires c != nil && parent != nil && keyOK(parent.PublicKey)
+//@   ensures  [issuer] err == nil ==> eq(parent.RawSubject, c.RawIssuer)
+//@   ensures  [ca] err == nil ==> !(parent.BasicConstraintsValid && !parent.IsCA) || eq(c.RawSubjectPublicKeyInfo, entrustBrokenSPKI)
+//@   ensures  [keyusage] err == nil ==> parent.KeyUsage == 0 || parent.KeyUsage & KeyUsageCertSign != 0
+//@   ensures  [sig] err == nil ==> ghost.sigOK(parent, c.SignatureAlgorithm, c.RawTBSCertificate, c.Signature)
+//@   modifies ghost.sigOK
+//@   terminates
